@@ -1,6 +1,7 @@
 import Pl.FaultSafe
 import Pl.Transparent
 import Pl.SimTop
+import Hb.Glue
 
 /-! # C09 — property theorems (statements only; proofs live in the family libraries) -/
 
@@ -40,6 +41,24 @@ theorem run2_fault_safe :
     (∃ e, (run2 items times n plan).result = .error e) ∨
     run2 items times n plan = run2 (noFaults items) times n plan :=
   @Pl.run2_fault_safe
+end
+
+section
+open Hb
+
+/-- the glue of BurndownAnalysis.Hibernate/Boot around the allocator: Hibernate succeeds, a file is recorded exactly
+when disk hibernation is on and the arena really left memory, and Boot with that file intact restores the arena -/
+theorem glue_roundtrip :
+    ∀ (toDisk : Bool) (a : Alloc) (h : Awake' a),
+    ∃ a' fo, hibernateB toDisk a = .ok (a', fo) ∧
+      (fo.isSome ↔ (toDisk = true ∧ a.threshold ≤ size a ∧ size a ≠ 0)) ∧
+      ∃ y, bootB a' fo.isSome fo = .ok y ∧ SameArena a y :=
+  @Hb.glue_roundtrip
+
+/-- a recorded file that is gone or unreadable makes Boot fail -/
+theorem glue_missing_file :
+    ∀ (a : Alloc), ∃ m, bootB a true none = .err m :=
+  @Hb.glue_missing_file
 end
 
 end Props.C09
